@@ -19,9 +19,28 @@ import (
 type Plan struct {
 	Kind string `json:"kind"`
 	K    int    `json:"k"`
+	// SW: the writer also has a WriteString method (like bytes.Buffer or
+	// bufio.Writer), so io.WriteString hands it strings directly; otherwise it
+	// is a plain struct with Write only. A WriteString call counts as a write
+	// call like any other.
+	SW bool `json:"sw,omitempty"`
 }
 
-func (p Plan) String() string { return fmt.Sprintf("%s:%d", p.Kind, p.K) }
+func (p Plan) String() string {
+	if p.SW {
+		return fmt.Sprintf("%s:%d/sw", p.Kind, p.K)
+	}
+	return fmt.Sprintf("%s:%d", p.Kind, p.K)
+}
+
+// swFault / swRec add a WriteString method to the writers.
+type swFault struct{ *faultWriter }
+
+func (w swFault) WriteString(s string) (int, error) { return w.faultWriter.Write([]byte(s)) }
+
+type swRec struct{ *recWriter }
+
+func (w swRec) WriteString(s string) (int, error) { return w.recWriter.Write([]byte(s)) }
 
 // ErrInjected is the error returned by the fault-injecting writers.
 var ErrInjected = errors.New("verif: injected write failure")
